@@ -206,6 +206,11 @@ func RunBMC(meta *Tracer, traces [][][]TraceEvent, solverBin string, timeoutMs i
 		b.threads = append(b.threads, buildTree(paths))
 	}
 	T := len(b.threads)
+	// static pruning of receive branches that no execution can take (checked: reaching one is reported)
+	b.classify()
+	if np := b.pruneRecv(); np > 0 {
+		res.Notes = append(res.Notes, fmt.Sprintf("%d receive branches beyond the number of values ever sent were replaced by a checked assumption", np))
+	}
 	// pools
 	nMake, nNew, nApp := 0, 0, 0
 	var regs []struct {
@@ -511,6 +516,9 @@ func RunBMC(meta *Tracer, traces [][][]TraceEvent, solverBin string, timeoutMs i
 				break
 			}
 		}
+		if strings.HasPrefix(res.Kind, "internal:") {
+			res.Verdict, res.Detail = "unknown", res.Kind
+		}
 		return res
 	case smt.Unknown:
 		res.Verdict, res.Detail = "unknown", "safety query: "+s.LastErr
@@ -748,7 +756,7 @@ func (b *bmc) classify() {
 	for i, th := range b.threads {
 		for _, n := range th.nodes {
 			switch n.ev.Kind {
-			case "end", "put", "get", "assert", "done", "panic", "cutoff", "unlock":
+			case "end", "put", "get", "assert", "done", "panic", "cutoff", "unlock", "pruned":
 				b.fuse[n] = true
 				continue
 			case "load":
@@ -786,6 +794,125 @@ func (b *bmc) classify() {
 			}
 		}
 	}
+}
+
+// pruneRecv removes receive-succeeded branches that cannot be taken: along one path a thread cannot
+// receive more values from a channel than the channel holds initially plus the largest number of
+// sends to it on any path of every thread.  Each removed branch is replaced by a leaf that reports
+// "internal: ... reached" if the model ever gets there, so the assumption is checked, not trusted
+// (the same role as an unwinding assertion).  Only channels that exist at the start and are named by
+// a constant (a cell nobody stores) take part.
+func (b *bmc) pruneRecv() int {
+	resolve := func(t *smt.Term) (int, bool) {
+		if t == nil {
+			return 0, false
+		}
+		if t.IsConst() {
+			return int(t.C), true
+		}
+		if t.Op == "var" {
+			if v, ok := b.constVal[t.Name]; ok {
+				return int(v), true
+			}
+		}
+		return 0, false
+	}
+	nch := len(b.meta.Chans)
+	budget := make([]int, nch)
+	for c := range budget {
+		budget[c] = b.meta.Chans[c].Count
+	}
+	for _, th := range b.threads {
+		if len(th.nodes) == 0 {
+			continue
+		}
+		// max sends per channel over the paths of this thread
+		var rec func(n *bNode) []int
+		rec = func(n *bNode) []int {
+			best := make([]int, nch)
+			for _, c := range n.children {
+				r := rec(c.to)
+				for i := range best {
+					if r[i] > best[i] {
+						best[i] = r[i]
+					}
+				}
+			}
+			if n.ev.Kind == "send" {
+				if c, ok := resolve(n.ev.Obj); ok {
+					if c < nch {
+						best[c]++
+					}
+				} else {
+					for i := range best {
+						best[i]++
+					}
+				}
+			}
+			return best
+		}
+		r := rec(th.nodes[0])
+		for i := range budget {
+			budget[i] += r[i]
+		}
+	}
+	pruned := 0
+	for _, th := range b.threads {
+		if len(th.nodes) == 0 {
+			continue
+		}
+		var walk func(n *bNode, got []int)
+		walk = func(n *bNode, got []int) {
+			for _, c := range n.children {
+				g := got
+				if n.ev.Kind == "recv" && len(n.ev.Res) > 0 {
+					if ch, ok := resolve(n.ev.Obj); ok && ch < nch && needsOne(c.conds, n.ev.Res[0].Name) {
+						if got[ch] >= budget[ch] {
+							c.to = &bNode{ev: TraceEvent{Kind: "pruned", Pre: c.conds}}
+							pruned++
+							continue
+						}
+						g = append([]int(nil), got...)
+						g[ch]++
+					}
+				}
+				walk(c.to, g)
+			}
+		}
+		walk(th.nodes[0], make([]int, nch))
+		// rebuild the node list from what is still reachable
+		entry := th.nodes[0]
+		th.nodes = nil
+		var collect func(n *bNode)
+		collect = func(n *bNode) {
+			n.id = len(th.nodes) + 1
+			th.nodes = append(th.nodes, n)
+			for _, c := range n.children {
+				collect(c.to)
+			}
+		}
+		collect(entry)
+	}
+	if pruned > 0 {
+		b.classify()
+	}
+	return pruned
+}
+
+// needsOne: the branch condition contains (= reg 1).
+func needsOne(conds []*smt.Term, reg string) bool {
+	for _, c := range conds {
+		if c.Op == "=" && len(c.Args) == 2 {
+			x, y := c.Args[0], c.Args[1]
+			if y.Op == "var" {
+				x, y = y, x
+			}
+			if x.Op == "var" && x.Name == reg && y.IsConst() && y.C == 1 {
+				return true
+			}
+		}
+	}
+	return false
 }
 
 // firstVisible follows a linear run of invisible events to the visible event that the step will execute.
@@ -1065,6 +1192,8 @@ func (b *bmc) apply(st *bState, i int, n *bNode, g *smt.Term, t int) {
 		st.markBad("panic: "+e.Text, g)
 	case "cutoff":
 		st.markBad("event-bound-exceeded", g)
+	case "pruned":
+		st.markBad("internal: a receive branch pruned as infeasible was reached", g)
 	}
 }
 
